@@ -402,7 +402,7 @@ impl Prop for C20P {
     fn assumptions(&self) -> Vec<String> {
         vec![
             "hook verif_eval (cfg roto_verif) passes scalar arguments to LoweredToLir::eval with a fresh Memory".into(),
-            "pairs predicted to trap natively (integer division by zero, MIN / -1) are not executed".into(),
+            "pairs predicted to trap natively (integer division by zero) are not executed; MIN / -1 wraps and is executed".into(),
             "any evaluator panic is accepted as 'stops loudly'; the fraction of completed runs is reported in classes".into(),
         ]
     }
